@@ -5,9 +5,7 @@ import (
 	"errors"
 	"fmt"
 	"io"
-	"math"
 	"reflect"
-	"strconv"
 	"time"
 
 	"github.com/osteele/liquid/parser"
@@ -111,15 +109,6 @@ func (n *TrimNode) render(w *trimWriter, _ nodeContext) Error {
 	}
 }
 
-// formatFloat prints a whole number without a fractional part or exponent
-// (fmt prints 1000001.0 as 1.000001e+06); other values print as fmt does.
-func formatFloat(f float64, bits int) string {
-	if f == math.Trunc(f) && math.Abs(f) < 1e15 {
-		return strconv.FormatFloat(f, 'f', -1, bits)
-	}
-	return strconv.FormatFloat(f, 'g', -1, bits)
-}
-
 // writeObject writes a value used in an object node
 func writeObject(w io.Writer, value any) error {
 	value = values.ToLiquid(value)
@@ -134,10 +123,10 @@ func writeObject(w io.Writer, value any) error {
 		_, err := w.Write(value)
 		return err
 	case float64:
-		_, err := io.WriteString(w, formatFloat(value, 64))
+		_, err := io.WriteString(w, values.FormatFloat(value, 64))
 		return err
 	case float32:
-		_, err := io.WriteString(w, formatFloat(float64(value), 32))
+		_, err := io.WriteString(w, values.FormatFloat(float64(value), 32))
 		return err
 		// there used be a case on fmt.Stringer here, but fmt.Sprint produces better results than obj.Write
 		// for instances of error and *string
